@@ -5,17 +5,18 @@ LEVEL_TEXT = ("Flow contracts: the real bodies of the high-level bign functions 
 from engine import G
 
 ENV = ["src/crypto/bign/bign_sign.c", "src/crypto/bign/bign_misc.c", "src/crypto/bign/bign_keyt.c", "src/crypto/bign/bign_ibs.c",
-       "src/crypto/bign/bign_lcl.c", "src/math/ww.c", "src/math/zz/zz_add.c", "src/math/zz/zz_mul.c", "src/crypto/belt/belt_compr.c",
+       "src/crypto/bign/bign_lcl.c", "src/math/ww.c", "src/math/zz/zz_add.c", "src/math/zz/zz_mul.c", "src/crypto/belt/belt_compr.c", "src/crypto/belt/belt_wbl.c",
        "src/math/ec.c", "src/math/ecp.c", "src/crypto/belt/belt_hash.c", "src/core/mem.c", "src/core/u64.c", "src/core/u32.c", "src/core/util.c"]
 STRIP = {"bign/bign_lcl.c": ["bignStart", "bignStart_keep"], "zz/zz_mul.c": ["zzMul", "zzMod"], "math/ec.c": ["!_deep$|^ecNAFWidth$"],
-         "math/ecp.c": ["!^ecpIsOnA_deep$"], "belt/belt_compr.c": ["!_deep$"], "belt/belt_hash.c": ["beltHashStart", "beltHashStepH", "beltHashStepG", "beltHashStepG2", "beltHashStepV", "beltHashStepV2"]}
+         "math/ecp.c": ["!^ecpIsOnA_deep$"], "belt/belt_compr.c": ["!_deep$"], "belt/belt_wbl.c": ["!_keep$"], "belt/belt_hash.c": ["beltHash_keep", "beltHashStart", "beltHashStepH", "beltHashStepG", "beltHashStepG2", "beltHashStepV", "beltHashStepV2"]}
 GROUPS = []
-FN = dict(sign="bignSign", verify="bignVerify", keypairgen="bignKeypairGen", keypairval="bignKeypairVal", pubkeyval="bignPubkeyVal", pubkeycalc="bignPubkeyCalc", dh="bignDH")
+FN = dict(sign="bignSign", verify="bignVerify", keypairgen="bignKeypairGen", keypairval="bignKeypairVal", pubkeyval="bignPubkeyVal", pubkeycalc="bignPubkeyCalc", dh="bignDH", sign2="bignSign2", idsign2="bignIdSign2")
 for l in (128, 192, 256):
-    for f in ("sign", "verify", "keypairgen", "keypairval", "pubkeyval", "pubkeycalc", "dh"):
+    for f in ("sign", "verify", "keypairgen", "keypairval", "pubkeyval", "pubkeycalc", "dh", "sign2", "idsign2"):
         GROUPS.append(G("flow.%s.l%d" % (f, l), "harness/C02/flow.c", "h_" + f, ENV, defs=["L=%d" % l], stubs=["stubs/bign_env.c"], strip=STRIP,
                         level="B", bound="security level l = %d (operand size fixed, contents symbolic); callees below the function replaced by their contracts" % l,
-                        unwind=max(70, l // 2 + 8), native=False, timeout=1500, fn=[FN[f]], tier="thorough" if (f == "dh" and l == 256) else "quick", required=not (f == "dh" and l == 256)))
+                        unwind=max(70, l // 2 + 8), unwindset=["bignSign2.0:4", "bignIdSign2.0:4"], native=False, timeout=1500, fn=[FN[f]], tier="thorough" if ((f == "dh" and l == 256) or f in ("sign2", "idsign2")) else "quick", required=not ((f == "dh" and l == 256) or f in ("sign2", "idsign2")),
+                        note="attempted: no answer from SAT in 700 s at l = 128 (forked hash state + belt-wbl chain); the contract text is in harness/C02/flow.c check_sign2" if f in ("sign2", "idsign2") else ""))
 ALLSRC = ["src/crypto/bign/bign_sign.c", "src/crypto/bign/bign_misc.c", "src/crypto/bign/bign_keyt.c", "src/crypto/bign/bign_ibs.c",
           "src/crypto/bign/bign_lcl.c", "src/crypto/bign/bign_params.c"]
 GROUPS.append(G("roundtrip.search", "harness/C02/roundtrip.c", "h_roundtrip", ALLSRC, level="N", backend="native", search=400, timeout=1800,
